@@ -16,7 +16,9 @@ from . import _script, _util as U, _gwin
 PID = "C02"
 MOD = "bbverif.checks.c02"
 
-META = ["plain", "target", "target_opts", "type", "target_type_opts", "device", "blank_lines", "str_opts", "pos_and_kw_opts", "empty_and_list_opts"]
+META = ["plain", "target", "target_opts", "type", "target_type_opts", "device", "blank_lines", "str_opts", "pos_and_kw_opts", "empty_and_list_opts",
+        # the version is reported as written, whatever its spelling
+        "ver:1.10", "ver:01.5", "ver:2.00", "ver:1e1", "ver:1.5E-3", "ver:0.10", "ver:1.0000000000000000001", "ver:10.0e+0"]
 STMTS = ["noargs1", "noargs2_sq", "noargs2_rb", "noargs2_bare", "pos_num", "pos_mixed", "kw_num", "kw_list", "kw_mixed",
          "pos_kw", "measure", "measure_kw", "var_int_mode", "var_float_arg", "var_expr", "var_str_bool", "array_arg",
          "array_idx", "loop_list", "loop_repeat", "loop_range", "trailing_comma", "expr_mode", "complex_arg", "empty_args", "str_like_literals", "number_spellings"]
@@ -41,6 +43,8 @@ class Env:
 
 def meta_lines(kind, lv):
     L = ["name prog_%s" % kind, "version 1.0"]
+    if kind.startswith("ver:"):
+        L = ["name prog_ver", "version " + kind[4:], "target X8 (n=%s)" % lv.int()]
     if kind == "target":
         L.append("target X8_01")
     elif kind == "device":
